@@ -417,7 +417,14 @@ def build_rtf(spec):
             m = spec["media"][a["part"]]
             data = image_bytes(m)
             blip = {"png": "\\pngblip", "jpeg": "\\jpegblip", "jpg": "\\jpegblip"}.get(m["kind"], "\\pngblip")
-            s += "{\\pict" + blip + f"\\picw{m['w']}\\pich{m['h']}\\picwgoal{m['w'] * 15}\\pichgoal{m['h'] * 15} " + data.hex() + "}"
+            # physical form of the hex dump: what separates the last control word from the data (a space, or — as writers that
+            # put the dump on its own lines do — a line break), and whether the dump is wrapped into lines of `rtf_wrap` digits
+            sep = spec.get("opts", {}).get("rtf_sep", " ")
+            hx = data.hex()
+            wrap = spec.get("opts", {}).get("rtf_wrap")
+            if wrap:
+                hx = "\r\n".join(hx[i:i + wrap] for i in range(0, len(hx), wrap))
+            s += "{\\pict" + blip + f"\\picw{m['w']}\\pich{m['h']}\\picwgoal{m['w'] * 15}\\pichgoal{m['h'] * 15}" + sep + hx + "}"
         pages.append(s)
     return ("{\\rtf1\\ansi " + "\\page ".join(pages) + "}").encode("ascii")
 
